@@ -90,6 +90,11 @@ def build_traces(path, tier, seed):
             if np.all(x == x[0]):
                 x[-1] += 1
         shift = float(rng.choice([4.0, -3.0, 100.0, rng.uniform(-10, 10)]))
+        if rng.integers(4) == 0 and not (i % 5 == 1):
+            # records in small / large units: total variation and the peak-only series are scale free
+            sc = 10.0 ** rng.choice([rng.uniform(-12, -6), rng.uniform(3, 8)])
+            x = x * sc
+            shift = shift * sc
         arg = x if i % 4 else x.tolist()
         argi = x.astype(np.int64) if (i % 5 == 1 and i % 2) else arg
         d = pc.determine_peaks_only_delta_series(argi)
@@ -103,7 +108,7 @@ def build_traces(path, tier, seed):
                      "container": type(argi).__name__ + ":" + str(getattr(argi, "dtype", ""))}
     for i in range(npl):
         n = gen.length(rng, 3, nmax) if i % 3 else int(rng.integers(3, 15))
-        x = rand_series(rng, n) * float(10.0 ** rng.uniform(-2, 2))
+        x = rand_series(rng, n) * float(10.0 ** rng.choice([rng.uniform(-2, 2), rng.uniform(-2, 2), rng.uniform(-12, -6), rng.uniform(3, 8)]))
         if np.max(np.abs(x)) == 0:
             x[0] = 1.0
         b = float([1.0, 0.5, 0.25, 0.3, 0.06, rng.uniform(0.05, 1.0)][i % 6])
